@@ -139,9 +139,10 @@ inline const char* value_class(double v) {
 }
 // Integer specials (for zone / precision / count / mask arguments).
 inline std::vector<long long> int_specials(bool thorough) {
-  std::vector<long long> q = {INT_MIN, -2, -1, 0, 1, 61, 65535, INT_MAX};
+  // 11/12 and 18/19: the precision / length limits of MGRS, Georef, OSGB (11) and Geohash (18)
+  std::vector<long long> q = {INT_MIN, -2, -1, 0, 1, 2, 3, 11, 12, 18, 19, 61, 65535, INT_MAX};
   if (!thorough) return q;
-  for (long long v : {(long long)INT_MIN + 1, -5LL, -4LL, -3LL, 2LL, 12LL, 13LL, 60LL, 1LL << 30, (long long)INT_MAX - 1})
+  for (long long v : {(long long)INT_MIN + 1, -5LL, -4LL, -3LL, 4LL, 5LL, 10LL, 13LL, 60LL, 1LL << 30, (long long)INT_MAX - 1})
     q.push_back(v);
   return q;
 }
